@@ -89,6 +89,26 @@ pub struct Rec {
     pub op: u8,
 }
 
+/// Quiet point: the replication loop has logged everything it was handed (the log files stop growing
+/// for 10 simulated ms -- longer than any single descheduling of a thread).
+pub fn quiesce(idx: u32) {
+    let mut stable = 0;
+    let mut last = scan(idx).0.len();
+    for _ in 0..400 {
+        sleep_ms(5);
+        let now = scan(idx).0.len();
+        if now == last {
+            stable += 1;
+            if stable >= 2 {
+                return;
+            }
+        } else {
+            stable = 0;
+            last = now;
+        }
+    }
+}
+
 /// All records in write order: rotated files by birth time (oldest first), then the current file.
 pub fn scan(idx: u32) -> (Vec<Rec>, usize, Vec<Rec>) {
     with(|k| {
@@ -236,7 +256,7 @@ fn execute(prog: Program) -> Outcome {
             }
             Op::Sleep { ms } => sleep_ms(*ms as u64),
             Op::Declutter => {
-                sleep_ms(2);
+                quiesce(idx);
                 let (before, nfiles_before, _) = scan(idx);
                 if strict_clock && !only_grew(&last_seen, &before) {
                     out.violations.push(Violation::new(
@@ -250,7 +270,7 @@ fn execute(prog: Program) -> Outcome {
                     out.violations.push(Violation::new("declutter-stuck", "declutter", format!("op #{}", oi)));
                     return out;
                 }
-                sleep_ms(2);
+                quiesce(idx);
                 let (after, nfiles, _) = scan(idx);
                 last_seen = after.clone();
                 // retention: what is left must be a suffix of what was there, and must still hold the
@@ -288,7 +308,7 @@ fn execute(prog: Program) -> Outcome {
                 }
             }
             Op::Restart => {
-                sleep_ms(2);
+                quiesce(idx);
                 w.kill(0);
                 w.boot(0, "");
                 if !w.wait_primary(0, 8_000) {
@@ -306,11 +326,11 @@ fn execute(prog: Program) -> Outcome {
                 for i in 0..ndbs {
                     admin.exec(&format!("create-db d{} tok none", i));
                 }
-                sleep_ms(2);
+                quiesce(idx);
                 last_seen = scan(idx).0;
             }
             Op::Query { since } => {
-                sleep_ms(2);
+                quiesce(idx);
                 let (all, nfiles, _current) = scan(idx);
                 if strict_clock && !only_grew(&last_seen, &all) {
                     out.violations.push(Violation::new(
@@ -408,7 +428,7 @@ fn execute(prog: Program) -> Outcome {
                 }
             }
             Op::LastOpTime => {
-                sleep_ms(2);
+                quiesce(idx);
                 let (all, nfiles, current) = scan(idx);
                 let got: u64 = spawn_on_node(&w, 0, "last-op-time", move || Oplog::last_op_time()).join().unwrap_or(0);
                 let want = all.last().map(|r| r.time).unwrap_or(0);
